@@ -7,7 +7,7 @@ import tprog, gen_dag, gen_ops
 PROP = 'C01'
 LEAN_TARGETS = ['Props.C01']
 REQUIRED_THEOREMS = ['Props.C01.transpose_vjp', 'Props.C01.movedim_vjp', 'Props.C01.reshape_vjp', 'Props.C01.slice_vjp',
-                     'Props.C01.add_vjp', 'Props.C01.mul_vjp', 'Props.C01.sum_vjp', 'Props.C01.mean_vjp', 'Props.C01.matmul_vjp']
+                     'Props.C01.add_vjp', 'Props.C01.mul_vjp', 'Props.C01.exp_vjp', 'Props.C01.log_vjp', 'Props.C01.pow_vjp', 'Props.C01.vjp_unique', 'Props.C01.sum_vjp', 'Props.C01.mean_vjp', 'Props.C01.matmul_vjp']
 RULE = ('per op of the tensor API: operand shapes of rank 0-4 with sizes 1-3 (every broadcasting pattern, 0-d, size-1 axes), the '
         'whole legal argument space (dims in [-ndim, ndim), tuples with negative entries, keepdims, index expressions with '
         'negative steps / ellipsis / newaxis / repeated integer lists, every source-destination pair, flatten ranges, unfold '
@@ -21,7 +21,7 @@ ASSUMPTIONS = ['float64 operands; NumPy reduction order differs from the model f
                'the implementation is accepted by the comparison']
 TRUSTED_BASE = ['harness/tprog.py, harness/gen_ops.py']
 # ops whose VJP theorem is not (yet) part of Props/C01.lean: modelled and corresponded only
-UNPROVED = ['pow', 'rpow', 'exp', 'log', 'sqrt (pointwise calculus over the reals: Proofs/PointwiseCalc.lean, in progress)', 'max', 'min (subgradient form)']
+UNPROVED = ['max', 'min (subgradient form: in progress)']
 
 
 def build(rng, op, malformed, gen=None):
